@@ -70,7 +70,7 @@ func vxLCreateToken(c *Core, ctx context.Context, ns *namespace.Namespace, reqPa
 		return false, nil, ErrInternalError
 	}
 	resp.Auth.ClientToken = "login-token"
-	return true, nil, nil
+	return true, resp, nil
 }
 
 func VxHandleLogin() {
